@@ -32,9 +32,13 @@ class BartiqPrinter(StrPrinter):
         return self._print_over_sequence(expr, "prod_over")
 
     def _print_over_sequence(self, expr: Any, sequence: str) -> str:
-        function, symbols = expr.args
-        symbol_args_str = ", ".join(self._print(symbol) for symbol in symbols)
-        return f"{sequence}({self._print(function)}, {symbol_args_str})"
+        # sympy merges a sum of a sum into one object with several limits; the first limit is the innermost one.
+        function, *limits = expr.args
+        text = self._print(function)
+        for symbols in limits:
+            symbol_args_str = ", ".join(self._print(symbol) for symbol in symbols)
+            text = f"{sequence}({text}, {symbol_args_str})"
+        return text
 
     def _print_Pi(self, expr: Any) -> str:
         return "PI"
